@@ -232,7 +232,9 @@ def run_template(t, tier, seed):
     t0 = time.time()
     timeout = 25 if tier == "quick" else 90
     py = sys.executable
-    env = dict(os.environ, PYTHONPATH=os.path.join(VERIF, "lib"), PVERIF_CH_MAXLEN="5" if tier == "quick" else "6")
+    # (the caller's PYTHONPATH stays in front of the installed package: it is how a scratch copy of the repository is analysed)
+    env = dict(os.environ, PYTHONPATH=os.pathsep.join(x for x in (os.path.join(VERIF, "lib"), os.environ.get("PYTHONPATH", "")) if x),
+               PVERIF_CH_MAXLEN="5" if tier == "quick" else "6")
     res = dict(tid=t.tid, paths=1, ret_paths=1, gaps={}, harness_errors=[], mismatches=[], obligations=0, discharged=0, trivial=0, inconclusive=0,
                cex=[], replayed_ok=0, exhausted=True, samples=[], twin_refuted=None, labels={}, kinds={}, queries=0, solver_time=0.0, decisions=1)
     for cond, expect_refuted in ((fn, False), (fn + "_twin", True)):
